@@ -319,6 +319,61 @@ def runtime_declarations(rep):
         rep.nontrivial.add('runtime-declaration-' + name)
 
 
+def composite_kept_current(rep):
+    """C10 'the published composite ... describes the hierarchy': an engine built
+    from a Composite keeps that Composite current.  Here the composite starts
+    without any step or flow; a compartment with two flow steps is generated
+    at run time, and the Composite object must then list its processes, steps,
+    flow and topology, so that an engine built from it runs the steps in flow
+    order."""
+    from vivarium.core.engine import Engine
+    from vivarium.core.process import Process
+    from vivarium.core.composer import Composite
+    from vivarium.library.topology import get_in
+
+    class Maker(Process):
+        defaults = {'time_step': 1}
+
+        def ports_schema(self):
+            return {'agents': {'*': {}}}
+
+        def next_update(self, timestep, states):
+            if getattr(self, 'done', False):
+                return {}
+            self.done = True
+            t = sr.template('T2', 0)
+            t['key'] = 'n'
+            return {'agents': {'_generate': [t]}}
+    for given in ('nothing', 'empty dictionaries'):
+        rep.evaluations += 1
+        sig = {'kind': 'composite-kept-current', 'given': given}
+        try:
+            parts = {'processes': {'maker': Maker()},
+                     'topology': {'maker': {'agents': ('agents',)}}}
+            if given != 'nothing':
+                parts.update(steps={}, flow={})
+            comp = Composite(parts)
+            eng = Engine(composite=comp, initial_state={'agents': {}}, display_info=False,
+                         emitter='null')
+            eng.update(2)
+            got = {'flow': get_in(comp['flow'], ('agents', 'n')),
+                   'steps': sorted(get_in(comp['steps'], ('agents', 'n')) or {}),
+                   'processes': sorted(get_in(comp['processes'], ('agents', 'n')) or {}),
+                   'topology': sorted(get_in(comp['topology'], ('agents', 'n')) or {})}
+        except Exception as e:
+            rep.violation(dict(sig, what='raised'),
+                          'C10 an engine built from a composite without steps, generating a '
+                          'compartment with flow steps, raised %r' % (e,), {})
+            continue
+        want = {'flow': {'s1': [], 's2': [('s1',)]}, 'steps': ['s1', 's2'],
+                'processes': ['p'], 'topology': ['p', 's1', 's2']}
+        if got != want:
+            rep.violation(sig, 'C10 the Composite an engine was built from (steps and flow: %s) '
+                          'lists for the generated compartment %r, the hierarchy holds %r'
+                          % (given, got, want), {})
+        rep.nontrivial.add('composite-kept-current-' + given)
+
+
 def nested_moves(rep, prop='C09'):
     """C09 '_move detaches the source subtree and attaches it - values, processes
     and their relative wiring intact - under the target', for a source named by a
@@ -457,6 +512,7 @@ def check(prop, tier, seed):
         if prop == 'C10':
             from vv import props_engine
             props_engine.struct_check(rep, tier, seed, scratch)
+            rep.guard(composite_kept_current, rep, what='the composite an engine was built from')
         if prop == 'C07':
             from vv import prop_c07_static
             prop_c07_static.run(rep, tier, scratch)
